@@ -11,7 +11,7 @@ sed -i -E "$expr" "$d/src/cooler/$file"
 after=$(md5sum "$d/src/cooler/$file" | cut -d' ' -f1)
 if [ "$before" = "$after" ]; then echo "MUTANT-NOOP: sed changed nothing"; rm -rf "$d"; exit 3; fi
 diff <(cat /repo/src/cooler/$file) "$d/src/cooler/$file" | head -8
-VMC_REPO_SRC="$d/src" /verif/check "$id" --tier "$tier" 2>&1 | grep -E "VIOLATION|KNOWN|HARNESS|clause=|tier=" | head -12
+VMC_EVIDENCE_DIR="$d/ev" VMC_REPLAY_DIR="$d/rp" VMC_REPO_SRC="$d/src" /verif/check "$id" --tier "$tier" 2>&1 | grep -E "VIOLATION|KNOWN|HARNESS|clause=|tier=" | head -12
 rc=${PIPESTATUS[0]}
 rm -rf "$d"
 exit $rc
